@@ -1,3 +1,4 @@
+#include <cmath>
 #include <dsplib/medfilt.h>
 #include <dsplib/utils.h>
 
@@ -57,7 +58,12 @@ arr_real MedianFilter::process(const arr_real& x) {
         _i = (_i + 1) % _n;
         _update_sort(_s.data(), _n, x[i], _d[_i]);
         _d[_i] = x[i];
-        y[i] = (_n % 2 == 1) ? _s[_n / 2] : (_s[_n / 2] + _s[_n / 2 - 1]) / 2;
+        if (_n % 2 == 1) {
+            y[i] = _s[_n / 2];
+        } else {
+            const real_t sm = _s[_n / 2] + _s[_n / 2 - 1];
+            y[i] = std::isfinite(sm) ? (sm / 2) : (_s[_n / 2] / 2 + _s[_n / 2 - 1] / 2);   //the sum may overflow, the mean cannot
+        }
     }
 
     return y;
